@@ -249,14 +249,24 @@ class BoboDecider(BoboEngineTask,
 
             # Keep halted IDs if not completed and not halted locally
             # Halt takes precedent over update
-            halted = [ch for ch in halted
-                      if ch not in self._cache_completed and
-                      ch not in self._cache_halted]
+            halted = [
+                ch for ch in halted
+                if (
+                    not any(ch.run_id == cache_comp.run_id
+                            for cache_comp in self._cache_completed) and
+                    not any(ch.run_id == cache_halt.run_id
+                            for cache_halt in self._cache_halted)
+                )]
 
             # Keep updated IDs if not completed and not halted locally
-            updated = [cu for cu in updated
-                       if cu not in self._cache_completed and
-                       cu not in self._cache_halted]
+            updated = [
+                cu for cu in updated
+                if (
+                    not any(cu.run_id == cache_comp.run_id
+                            for cache_comp in self._cache_completed) and
+                    not any(cu.run_id == cache_halt.run_id
+                            for cache_halt in self._cache_halted)
+                )]
 
         return completed, halted, updated
 
